@@ -32,11 +32,13 @@ pub struct Cfg {
     /// parameter and the rest literal, summed with literal atoms (what a reduction *before* the arguments
     /// arrive must leave alone)
     pub partial_const: bool,
+    /// C17: now and then two txs of one program carry exactly the same name
+    pub dup_tx_names: bool,
 }
 
 impl Default for Cfg {
     fn default() -> Self {
-        Cfg { cardano_pct: 10, redeemers: true, risky_pct: 25, boundary_ints: false, max_txs: 2, balanced: false, min_utxo: false, max_cases: 4, datum_pct: 60, mint_pct: 40, datum_focus: false, redeemer_focus: false, partial_const: false }
+        Cfg { cardano_pct: 10, redeemers: true, risky_pct: 25, boundary_ints: false, max_txs: 2, balanced: false, min_utxo: false, max_cases: 4, datum_pct: 60, mint_pct: 40, datum_focus: false, redeemer_focus: false, partial_const: false, dup_tx_names: false }
     }
 }
 
@@ -829,6 +831,10 @@ impl<'r> Builder<'r> {
         // case-sensitive keys of the interface)
         let prev_name: Option<String> = self.g.prog.txs.last().map(|t| t.name.clone());
         let txname = match prev_name {
+            Some(prev) if self.cfg.dup_tx_names && self.rng.chance(1, 5) => {
+                self.tag("tx-names-identical");
+                prev
+            }
             Some(prev) if self.rng.chance(1, 4) => {
                 self.tag("tx-names-differ-in-letter-case-only");
                 prev.chars().map(|c| if c.is_ascii_lowercase() { c.to_ascii_uppercase() } else { c.to_ascii_lowercase() }).collect()
@@ -1175,6 +1181,10 @@ impl<'r> Builder<'r> {
         // case-sensitive keys of the interface)
         let prev_name: Option<String> = self.g.prog.txs.last().map(|t| t.name.clone());
         let txname = match prev_name {
+            Some(prev) if self.cfg.dup_tx_names && self.rng.chance(1, 5) => {
+                self.tag("tx-names-identical");
+                prev
+            }
             Some(prev) if self.rng.chance(1, 4) => {
                 self.tag("tx-names-differ-in-letter-case-only");
                 prev.chars().map(|c| if c.is_ascii_lowercase() { c.to_ascii_uppercase() } else { c.to_ascii_lowercase() }).collect()
